@@ -28,6 +28,20 @@ impl<T: Ord> Default for GSet<T> {
 //@end
 }
 
+impl<T: Ord> vstd::std_specs::convert::FromSpecImpl<GSet<T>> for BTreeSet<T> {
+    open spec fn obeys_from_spec() -> bool { false }
+    uninterp spec fn from_spec(v: GSet<T>) -> Self;
+}
+impl<T: Ord> From<GSet<T>> for BTreeSet<T> {
+//@extract fn src/gset.rs "From for BTreeSet" from
+    fn from(gset: GSet<T>) -> /*@ (r: @*/ BTreeSet<T> /*@ ) @*/
+    //@ ensures r@ == gset@,
+    {
+        gset.value
+    }
+//@end
+}
+
 impl<T: Ord> CvRDT for GSet<T> {
     type Validation = Infallible;
     open spec fn cv_inv(&self) -> bool { true }
